@@ -55,7 +55,7 @@ const URLS: &[&str] = &[
     "dbname=d hostaddr=10.0.0.1,10.0.0.2 host=a,b port=1",
 ];
 
-const TEXTS: &[&str] = &["", "plain", "n\u{f6}n-\u{e4}scii\u{1F600}", "with space", "quo'te", "a=b", "back\\slash", "/abs/path", "x", " ", "\t", "\u{a0}", " padded ", "0", "null", "%20"];
+const TEXTS: &[&str] = &["", "plain", "n\u{f6}n-\u{e4}scii\u{1F600}", "with space", "quo'te", "a=b", "back\\slash", "/abs/path", "x", " ", "\t", "\u{a0}", " padded ", "0", "null", "%20", "secret\n", "\r\n", "\n", "a\nb", "\u{1b}[0m"];
 const HOSTS: &[&str] = &["h", "example.org", "/var/run/sock", "10.0.0.1", "", "h\u{f6}st"];
 
 fn opt<T>(rng: &mut Rng, f: impl FnOnce(&mut Rng) -> T) -> Option<T> {
